@@ -33,6 +33,9 @@ InitOf(i) ==
 
 ApplyOp(t, op) ==
   CASE op.name = "next" -> DoNext(t)
+    [] op.name = "next_reclose" ->
+         LET pair == DoNext(t) IN
+         <<pair[1], IF pair[2].res = "frame" THEN [pair[2] EXCEPT !.inner = "ValueError"] ELSE pair[2]>>
     [] op.name = "next_fails" -> DoNextFails(t, op.kind)
     [] op.name = "seek" -> DoSeek(t, op.off, op.whence)
     [] op.name = "set_frame_duration" -> DoSet(t, "dur", op.v, op.v > 0 \/ op.v = Dyn, "ValueError")
@@ -42,7 +45,7 @@ ApplyOp(t, op) ==
     [] op.name = "set_render_size" -> DoSet(t, "size", op.v, TRUE, "")
     [] op.name \in {"close", "drop"} -> DoClose(t)
 
-FrameFields == <<"num", "dur", "size", "margins", "psize", "args", "seek">>
+FrameFields == <<"num", "dur", "size", "margins", "psize", "args", "seek", "inner">>
 
 RECURSIVE FirstDiff(_, _, _)
 FirstDiff(exp, r, i) ==
